@@ -143,6 +143,7 @@ class Compose(object):
         obj = cls()
         try:
             obj.load(path)
-        except ValueError as exc:
+        except (ValueError, KeyError, TypeError, AttributeError) as exc:
+            # KeyError etc.: well-formed JSON that is not the expected metadata
             raise RuntimeError('%s can not be deserialized: %s.' % (path, exc))
         return obj
